@@ -11,6 +11,9 @@ pub struct Case {
     pub cfg: Config,
     pub seed: u64,
     pub tones: Vec<Tone>,
+    /// the whole input is scaled by 10^amp_exp (0, -2, -4, -6): the agreement is relative to the peak, whatever the level
+    #[serde(default)]
+    pub amp_exp: i16,
     pub ops: Vec<Op>,
 }
 
@@ -31,7 +34,11 @@ fn run(c0: &Case) -> Outcome {
         o.class(if table >= 1 << 16 { "table>=2^16" } else if table > 1 << 13 { "table>2^13" } else { "table<=2^13" });
     }
     let opts = HistOpts { envelope: true, record_out: true, quant32: true, stop_on_err: true };
-    let sig = Signal::TonesNoise { tones: c0.tones.clone(), seed: c0.seed, noise: 0.2 };
+    let scale = 10f64.powi(c0.amp_exp.clamp(-12, 0) as i32);
+    if c0.amp_exp != 0 {
+        o.class("quiet input");
+    }
+    let sig = Signal::TonesNoise { tones: c0.tones.iter().map(|t| Tone { f: t.f, a: t.a * scale, ph: t.ph }).collect(), seed: c0.seed, noise: 0.2 * scale };
     let mut c32 = cfg.clone();
     c32.f32 = true;
     let mut c64 = cfg.clone();
@@ -55,7 +62,7 @@ fn run(c0: &Case) -> Outcome {
         return o;
     }
     // peak of the f64 output stream (at least the input peak, so silence at the start does not tighten the bound)
-    let in_peak: f64 = c0.tones.iter().map(|t| t.a).sum::<f64>() + 0.2;
+    let in_peak: f64 = scale * (c0.tones.iter().map(|t| t.a).sum::<f64>() + 0.2);
     let mut peak = in_peak;
     for s in &t64.steps {
         for ch in &s.out {
@@ -147,8 +154,8 @@ impl Property for C17 {
         sp.max_fft_block = if th { 4096 } else { 1024 };
         sp.probes = false;
         let tone = (0.001f64..0.45, 0.2f64..1.0, 0.0f64..6.28).prop_map(|(f, a, ph)| Tone { f, a, ph });
-        (config_strategy(sp), any::<u64>(), proptest::collection::vec(tone, 1..=2), ops_strategy(OpSpace::all(), 16), prop_oneof![2 => Just(false), 1 => Just(true)])
-            .prop_map(move |(mut cfg, seed, tones, ops, big)| {
+        (config_strategy(sp), any::<u64>(), proptest::collection::vec(tone, 1..=2), ops_strategy(OpSpace::all(), 16), prop_oneof![2 => Just(false), 1 => Just(true)], prop_oneof![3 => Just(0i16), 1 => Just(-2i16), 1 => Just(-4i16), 1 => Just(-6i16)])
+            .prop_map(move |(mut cfg, seed, tones, ops, big, amp_exp)| {
                 // a share of the sinc cases gets a large table (the normalisation sum runs over L*os terms)
                 if cfg.kind.is_sinc() && big {
                     cfg.sinc_len = cfg.sinc_len.max(256);
@@ -159,7 +166,7 @@ impl Property for C17 {
                 while call_cost(&cfg) * calls > budget && cfg.chunk > 1 {
                     cfg.chunk = (cfg.chunk / 2).max(1);
                 }
-                Case { cfg, seed, tones, ops }
+                Case { cfg, seed, tones, ops, amp_exp }
             })
             .boxed()
     }
